@@ -628,11 +628,11 @@ def _red_cases(draw):
 
 SUBS = [
     Sub("metricframe", check_metricframe, strategy=_mf_cases, quick=300, thorough=10000, shards=16,
-        floors={"nt": 0.3, "bijection_moves_labels": 0.182, "perm_nontrivial": 0.351}),
-    Sub("named_metrics", check_named, strategy=_named_cases, quick=120, thorough=4000, shards=16, floors={"nt": 0.352}),
-    Sub("moments", check_moment, strategy=_moment_cases, quick=300, thorough=10000, shards=16, floors={"nt": 0.392, "control": 0.175}),
+        floors={"nt": 0.189, "bijection_moves_labels": 0.182, "perm_nontrivial": 0.321}),
+    Sub("named_metrics", check_named, strategy=_named_cases, quick=120, thorough=4000, shards=16, floors={"nt": 0.306}),
+    Sub("moments", check_moment, strategy=_moment_cases, quick=300, thorough=10000, shards=16, floors={"nt": 0.277, "control": 0.175}),
     Sub("threshold_optimizer", check_threshold_optimizer, strategy=_to_cases, quick=150, thorough=4000, shards=16,
-        floors={"nt": 0.2, "y_dataframe": 0.03}),
+        floors={"nt": 0.188, "y_dataframe": 0.03}),
     Sub("reductions", check_reduction, strategy=_red_cases, quick=60, thorough=2000, shards=16, shrink_quick=False,
         floors={"nt": 0.1}),
 ]
